@@ -16,8 +16,10 @@
                (the list is E2image.tla SizesQuick / SizesMore, handed over by Emit_E2image)
   wide_*       sparse filesystems larger than 4 GiB (E2image.tla WideQuick / WideMore): the geometry is searched so that every
                target block of the catalogue (just below, at, just above byte 2^31 and 2^32) is an inode-table block of a group
-               without backups; the inodes in those blocks are put in use (debugfs seti/sif/ln), every group has an initialised
-               block bitmap (no uninit_bg), and one block-mapped file has its data block in the group after the last target
+               without backups; the inodes in those blocks are put in use (debugfs seti/sif/ln) and one block-mapped file has
+               its data block in the group after the last target.  kind "dense": no uninit_bg, every group has an initialised
+               block bitmap; kind "hole": metadata_csum, no backup superblocks, the groups without targets stay uninitialised, so that a metadata image
+               has a hole of more than 2^31 bytes between the first group and the first target
 
 Built with the scratch-built mke2fs / debugfs / e2fsck of the current tree, cached next to that build.  Every image must pass
 e2fsck -fn (info["ok"]); the caller skips and reports the ones that do not."""
@@ -156,7 +158,7 @@ def make(build, name, outdir, spec=None):
         os.unlink(blob)
         info["mke2fs_rc"] = 0
         return _finish(build, env, img, info)
-    if name.startswith("wide_"):
+    if name.startswith("wide"):
         return make_wide(build, env, img, info, spec, tdir)
     if name.startswith("size_"):
         _, bs, blocks = name.split("_")
@@ -219,7 +221,10 @@ def make_wide(build, env, img, info, spec, tdir):
     ipg = itb * ipb
     groups = (blocks - first + g - 1) // g
     info["geometry"] = {"bpg": g, "itb": itb, "ipg": ipg, "groups": groups}
-    rc, err = _mk(build, env, img, blocks * bs // 1024, "-t ext4 -b %d -g %d -N %d -I %d -O ^has_journal,^flex_bg,^resize_inode,^uninit_bg" % (bs, g, groups * ipg, isz),
+    rc, err = _mk(build, env, img, blocks * bs // 1024, "-t ext4 -b %d -g %d -N %d -I %d -O ^has_journal,^flex_bg,^resize_inode,%s" % (
+                      bs, g, groups * ipg, isz,
+                      # hole: no backup groups either (their block bitmaps are initialised), the -E here replaces the one of _mk
+                      "metadata_csum,sparse_super2 -E hash_seed=%s,num_backup_sb=0" % HASH_SEED if spec.get("kind") == "hole" else "^uninit_bg"),
                   small_tree(tdir))
     info["mke2fs_rc"] = rc
     info["mke2fs_err"] = err
@@ -258,7 +263,7 @@ def size_name(e):
 
 
 def wide_name(e):
-    return "wide_%d" % e["bs"]
+    return "wide%s_%d" % ("" if e["kind"] == "dense" else e["kind"], e["bs"])
 
 
 def images(build, names, specs=None):
